@@ -13,11 +13,12 @@ PS_Q == { P1(Dm(0, 2, 3, FALSE), FALSE), P1(Dm(0, 2, 3, FALSE), TRUE), P1(Dm(-3,
           [dims |-> <<Dm(-2, 1, 5, FALSE)>>, stepZero |-> FALSE, vec |-> 0, weights |-> <<>>, custom |-> TRUE, vs |-> {}] }
 VS_Q == {-3, 0, 2, 6}
 VS_T == {-3, -1, 0, 2, 3, 6}
-WitInit == TLCSet(1, FALSE) /\ TLCSet(2, FALSE)
-Wit == /\ ((quirk = {} /\ \E b \in Bins : count[b] >= 2) => TLCSet(1, TRUE))
-       /\ ((runs > 1) => TLCSet(2, TRUE))
-WitPost == TLCGet(1) /\ TLCGet(2)
-MCInit == Init /\ WitInit
+\* vacuity witnesses: the check searches a state satisfying each Witness<i> (a violation of NoWitness<i>)
+Witness1 == quirk = {} /\ \E b \in Bins : count[b] >= 2
+NoWitness1 == ~Witness1
+Witness2 == runs > 1
+NoWitness2 == ~Witness2
+MCInit == Init
 MCNext == Len(hist) < EmitLen /\ Next
 MCSpec == MCInit /\ [][MCNext]_gvars
 Emit == (Len(hist) = EmitLen) => PrintT(<<"BEH", ToJson([p |-> p, hist |-> hist, cont |-> cont, cells |-> {[b |-> b, c |-> count[b]] : b \in Bins}, q |-> quirk])>>)
